@@ -74,6 +74,10 @@ pub trait Flavor {
         ensures r is Ok ==> final(self).view() == old(self).view() + data@;
     fn try_push(&mut self, data: u8) -> (r: Result<()>)
         ensures r is Ok ==> final(self).view() == old(self).view().push(data);
+    type Output;
+    spec fn out_view(o: &Self::Output) -> Seq<u8>;       // what the finalized output stands for (the stored bytes; for Size, their number)
+    fn finalize(self) -> (r: Result<Self::Output>)
+        ensures r is Ok ==> Self::out_view(&r->Ok_0) == self.view();
 }
 
 // a serialisable value: whatever its impl is, on success it appends its wire form `wire()` (the induction hypothesis for
@@ -134,5 +138,10 @@ pub fn str_as_bytes(v: &str) -> (r: &[u8]) ensures r@ == str_bytes(v) { v.as_byt
         method("serialize_struct_variant", "r is Ok ==> " + OUT + " + enc(§p2§ as nat)", extra_rewrites=COMPOUND),
     ] + [it for tr, short, fns in COMPOUND_IMPLS for it in compound_items(tr, short, fns)] + [
         dict(kind="raw", name="<impl-close>", text="}\n"),
+        # the entry point every to_* function goes through: a fresh Serializer over the given storage, the value's serialisation, finalize
+        dict(kind="fn", file="postcard/src/ser/mod.rs", name="serialize_with_flavor", qual="postcard::ser::serialize_with_flavor",
+             rewrites=[(r"T: Serialize \+ \?Sized,", "T: Serialize,", 1, 1), D12],
+             sig="    ensures r is Ok ==> S::out_view(&r->Ok_0) == §p1§.view() + §p0§.wire()   // @obl:C02.V.emit.serialize_with_flavor",
+             obls=["C02.V.emit.serialize_with_flavor"]),
     ],
 )
